@@ -6,7 +6,7 @@ CLAIMS = {
     # id: (category, technique, level text, level note, design_ref)
     "C11": ("proof", "contract-based deductive verification: VCs generated from the real source (pyvc: Python ast -> z3/cvc5), all int32 operands",
             "Every obligation carrying the property is generated from the current source of the folding functions and discharged by an SMT solver for all int32 operand pairs; counter-models are replayed on the real function.",
-            "Trusted: pyvc's encoding of Python (DESIGN §2.1, CPython differential self-test), spec S1 (spec/arith32.py), CPython's int(text, base) for literal parsing, z3/cvc5.",
+            "Trusted: pyvc's encoding of Python (DESIGN §2.1, CPython differential self-test), spec S1 (spec/arith32.py), CPython's int(text, base) for literal parsing, z3/cvc5. One obligation (IR-level '/') is discharged only in its `post OR class(KF-C11-ir-floor-division)` form. The contract on _try_fold_wire_merge covers merges of 2 and 3 constants (bounded list length; values symbolic).",
             "DESIGN §4 C11"),
     "C01": ('other', "contract chain K1..K9: pyvc VCs on the real lowering functions (lower_binary_op for all 19 operators as induction step over the expression tree, unary/comparison/logical lowerers, _is_boolean_producer), folding functions, the CSE key lemma and constant liveness (K4) and the decider/arithmetic emission (K8) (P) + bounded end-to-end validation of the real pipeline's blueprint (S2 circuit model) against the S3 source semantics by SMT over all int32 inputs (B)",
             'P obligations are discharged for all inputs; the program-shape quantifier is covered only by an enumerated scope (bounded stand-in, labelled, never counted as proved).',
